@@ -103,7 +103,11 @@ func (check typecheck) addressExpr(n *node) error {
 			continue
 		case indexExpr, sliceExpr:
 			c := c0.child[0]
-			if isArray(c.typ) || isMap(c.typ) {
+			if c0.kind == indexExpr && isMap(c.typ) {
+				return n.cfgErrorf("invalid operation: cannot take address of a map element")
+			}
+			if rt := c.typ.TypeOf(); isArray(c.typ) || rt.Kind() == reflect.Ptr && rt.Elem().Kind() == reflect.Array {
+				// An element of an array, of a slice, or of the array a pointer points to.
 				c0 = c
 				found = true
 				continue
